@@ -39,6 +39,7 @@ func checkC02(c *Ctx) {
 	c02Sets(c)
 	c02Helpers(c)
 	c02RuleNames(c)
+	c02EveryResult(c)
 	// (P9) a predicate step denotes the IRI its prefix is bound to by THIS profile and the built-in table: the expander's
 	// context is a fresh copy of the defaults overlaid by the profile's prefixes (an aliased table lets an earlier profile
 	// rebind the prefixes of a later one)
@@ -807,7 +808,10 @@ func c02Sets(c *Ctx) {
 			}
 			ast.Inspect(fd.Body, func(n ast.Node) bool {
 				call, ok := n.(*ast.CallExpr)
-				if !ok || funcFullName(calleeOf(info, call)) != "fmt.Sprintf" || len(call.Args) < 1 {
+				if !ok {
+					return true
+				}
+				if call, ok = normSprintf(info, call); !ok {
 					return true
 				}
 				if f, ok := constString(info, call.Args[0]); ok {
@@ -853,11 +857,12 @@ func c02Sets(c *Ctx) {
 				continue
 			}
 			ast.Inspect(fd.Body, func(n ast.Node) bool {
-				call, ok := n.(*ast.CallExpr)
+				// any mention of an entry function counts, called directly or taken as a function value
+				id, ok := n.(*ast.Ident)
 				if !ok {
 					return true
 				}
-				if id, ok := call.Fun.(*ast.Ident); ok {
+				if fo, isFn := info.Uses[id].(*types.Func); isFn && fo.Pkg() == gen.Types {
 					switch entryKind[id.Name] {
 					case "array":
 						arrayUsers[fd.Name.Name] = true
@@ -1361,4 +1366,71 @@ func c02CompositionShape(c *Ctx, gen *packages.Package, fd *ast.FuncDecl, prm ty
 		return false, "no return value composes the head with the tail"
 	}
 	return true, ""
+}
+
+// c02EveryResult (P5): wherever the generator turns the results of a traversal (one per alternative route through the
+// path) into the list it hands on, every result is kept: the returned list is [for every result r of traverse(...): one
+// entry made from r], with nothing skipped, de-duplicated or conditional.  Two alternatives may well look alike in
+// whatever key a filter could use (`p | p^` visit the same predicates).
+func c02EveryResult(c *Ctx) {
+	r, p := c.R, c.P
+	gen := p.Pkg("internal/generator")
+	pathPk := p.Pkg("internal/parser/path")
+	if gen == nil || pathPk == nil {
+		return
+	}
+	var pathT *types.Named
+	for _, n := range pathPk.Types.Scope().Names() {
+		if tn, ok := pathPk.Types.Scope().Lookup(n).(*types.TypeName); ok {
+			if it, ok := tn.Type().Underlying().(*types.Interface); ok && it.NumMethods() >= 2 {
+				pathT, _ = tn.Type().(*types.Named)
+			}
+		}
+	}
+	if pathT == nil {
+		return
+	}
+	n := 0
+	for _, f := range gen.Syntax {
+		for _, d := range f.Decls {
+			fd, ok := d.(*ast.FuncDecl)
+			if !ok || fd.Body == nil || fd.Type.Results == nil {
+				continue
+			}
+			for _, rt := range c02TraversalReturns(c, gen, fd, pathT) {
+				v := rt[1].(*Sym)
+				if v.K != symList {
+					continue
+				}
+				for _, part := range v.Parts {
+					if part.K != symRepeat {
+						continue
+					}
+					if _, isTr := traversalCall(gen, part.X); !isTr {
+						continue
+					}
+					n++
+					key := relOf(gen) + "." + fd.Name.Name + "#every-result"
+					var everyResult func(rep *Sym) bool
+					everyResult = func(rep *Sym) bool {
+						if len(rep.Parts) != 1 {
+							return false
+						}
+						p0 := rep.Parts[0]
+						if p0.K == symRepeat {
+							// for every result, every result of a further traversal that starts from it
+							_, isTr := traversalCall(gen, p0.X)
+							return isTr && mentionsElemOf(p0.X, rep.X) && everyResult(p0)
+						}
+						return p0.K != symWhen && mentionsElemOf(p0, rep.X)
+					}
+					okOne := everyResult(part)
+					r.Check(okOne, "C02.P5", key, p.Pos(fd.Pos()), "every result of the traversal contributes one entry", "the results of "+shortFormat(part.X.String())+" are turned into "+shortFormat(part.String())+", not into one entry each: routes are skipped, filtered or merged, so an alternative of a union (or a converse step that visits the same predicates) silently disappears")
+				}
+			}
+		}
+	}
+	if n == 0 {
+		r.Unknown("C02.P5", "every-result", "", "no function that turns traversal results into a list was recognised")
+	}
 }
